@@ -21,6 +21,10 @@ FeedAgrees == term = Feed(NewTerm(TCols, TRUE, <<>>), fed)
 \* colour sequences are zero width: in the ground state ESC[31m and ESC[1;32m change nothing
 ColourZeroWidth == Idle(term) => /\ Feed(term, <<27, 91, 51, 49, 109>>) = term
                                  /\ Feed(term, <<27, 91, 49, 59, 51, 50, 109>>) = term
+                                 \* ... of any length: 24-bit foreground + background + attributes (41 bytes)
+                                 /\ Feed(term, <<27, 91, 48, 59, 49, 59, 52, 59, 51, 56, 59, 50, 59, 50, 53, 53, 59,
+                                                 50, 53, 53, 59, 50, 53, 53, 59, 52, 56, 59, 50, 59, 49, 48, 48, 59,
+                                                 49, 48, 48, 59, 49, 48, 48, 109>>) = term
 \* erase-to-end leaves nothing at or right of the cursor and keeps what is left of it
 EraseOK == Idle(term) =>
   LET t2 == Feed(term, <<27, 91, 48, 75>>) IN
